@@ -3,8 +3,10 @@
 # Confirms in a scratch worktree: patch applies to /repo HEAD, full suite passes, demo exits 1 with / 0 without.
 # On success copies into /verif/seeded/<Cxx>_<mK>/ (patch.diff, demo.py, meta.json).
 P=$1; M=$2
-OUT=/tmp/seed_$P/out
-W=/tmp/sc_${P}_$M
+# optional: $3 = source directory (default /tmp/seed_<P>/out), $4 = name to store it under (default <mK>)
+OUT=${3:-/tmp/seed_$P/out}
+T=${4:-$M}
+W=/tmp/sc_${P}_$T
 git -C /repo worktree remove --force $W 2>/dev/null
 git -C /repo worktree add --detach $W HEAD >/dev/null 2>&1 || { echo "worktree failed"; exit 2; }
 cd $W
@@ -26,7 +28,7 @@ fi
 git -C /repo worktree remove --force $W
 echo "$P $M demo_with=$WITH demo_without=$WITHOUT suite: $SUITE"
 if [ "$WITH" = "1" ] && [ "$WITHOUT" = "0" ] && echo "$SUITE" | grep -q "3340 passed"; then
-  D=/verif/seeded/${P}_$M; mkdir -p $D
+  D=/verif/seeded/${P}_$T; mkdir -p $D
   cp $OUT/$M.diff $D/patch.diff; cp $OUT/${M}_demo.py $D/demo.py
   /venv/bin/python - "$OUT/$M.json" "$D/meta.json" "$SUITE" <<'PY'
 import json,sys
@@ -34,7 +36,7 @@ m=json.load(open(sys.argv[1]))
 m["confirmed_by_coordinator"]={"applies_to_repo_head":True,"suite":sys.argv[3],"demo_exit_with_change":1,"demo_exit_without_change":0}
 json.dump(m,open(sys.argv[2],"w"),indent=1)
 PY
-  echo "CONFIRMED $P $M"
+  echo "CONFIRMED $P $T"
 else
-  echo "REJECTED $P $M"
+  echo "REJECTED $P $T"
 fi
